@@ -635,8 +635,14 @@ func (rn *runner) run(runNo int, crashAfter int, last bool) (cont bool, died boo
 				want++
 			}
 		}
+		// (1 s without a further applied command, not 1 s in all)
 		deadline := time.Now().Add(1 * time.Second)
+		lastN := -1
 		for rn.dataApplied() < want && time.Now().Before(deadline) {
+			if n := rn.dataApplied(); n != lastN {
+				lastN = n
+				deadline = time.Now().Add(1 * time.Second)
+			}
 			time.Sleep(300 * time.Microsecond)
 		}
 	}
